@@ -63,3 +63,73 @@ pub fn levels_of(perm: &[usize]) -> Vec<usize> {
     }
     l
 }
+
+/// "Two objects of one kind on one thread": create, use a little and drop ANOTHER object of the library
+/// (rotating with `k`: a BDD builder, an SDD builder, a top-down builder of either store, a solver, a vtree
+/// manager, a weight table, a formula with its hasher and orders). Called by the long-lived sweeps between
+/// their own operations: anything the library keeps per thread or per process instead of per object - an id
+/// counter restarted by a constructor, a handle slab, a "current manager" - is disturbed by it, while a
+/// correct library is indifferent. Panics inside are swallowed (the interloper's own correctness is checked
+/// elsewhere).
+pub fn interloper(k: usize) {
+    use rsdd::builder::decision_nnf::{DecisionNNFBuilder, SemanticDecisionNNFBuilder, StandardDecisionNNFBuilder};
+    use rsdd::builder::sdd::CompressionSddBuilder;
+    use rsdd::repr::{Cnf, DDNNFPtr, Literal, VTree, VTreeManager};
+    if crate::core::disabled("interloper") {
+        return;
+    }
+    let lit = |v: u64, p: bool| Literal::new(VarLabel::new(v), p);
+    let _ = crate::core::guarded(|| {
+        rsdd::verif::set_table_capacity(4);
+        match k % 8 {
+            0 => {
+                let b = RobddBuilder::<AllIteTable<BddPtr>>::new(VarOrder::linear_order(1 + k % 3));
+                let x = b.var(VarLabel::new(0), true);
+                let _ = b.and(x, x.neg());
+            }
+            1 => {
+                let b = RobddBuilder::<AllIteTable<BddPtr>>::new(VarOrder::linear_order(3));
+                let (x, y, z) = (b.var(VarLabel::new(0), true), b.var(VarLabel::new(1), false), b.var(VarLabel::new(2), true));
+                let f = b.ite(x, y, z);
+                let _ = b.exists(f, VarLabel::new(1));
+                let _ = f.count_nodes();
+            }
+            2 => {
+                let vt = VTree::right_linear(&[VarLabel::new(0), VarLabel::new(1), VarLabel::new(2)]);
+                let b = CompressionSddBuilder::new(vt);
+                let (x, y) = (b.var(VarLabel::new(0), true), b.var(VarLabel::new(2), true));
+                let _ = b.or(x, y);
+            }
+            3 => {
+                let c = Cnf::new(&[vec![lit(0, true), lit(1, false)], vec![lit(1, true), lit(2, true)]]);
+                let b = StandardDecisionNNFBuilder::new(VarOrder::linear_order(3));
+                let _ = b.compile_cnf_topdown(&c);
+            }
+            4 => {
+                let c = Cnf::new(&[vec![lit(0, false), lit(1, false)]]);
+                let b = SemanticDecisionNNFBuilder::<{ rsdd::constants::primes::U64_LARGEST }>::new(VarOrder::linear_order(2));
+                let _ = b.compile_cnf_topdown(&c);
+            }
+            5 => {
+                let c = Cnf::new(&[vec![lit(0, true), lit(1, true)], vec![lit(0, false)]]);
+                if let Some(mut s) = rsdd::repr::SATSolver::new(c) {
+                    let _ = s.decide(lit(1, false));
+                    s.pop();
+                }
+            }
+            6 => {
+                let vt = VTree::even_split(&[VarLabel::new(0), VarLabel::new(1), VarLabel::new(2), VarLabel::new(3)], 2);
+                let m = VTreeManager::new(vt);
+                let _ = m.lca(m.var_index(VarLabel::new(3)), m.var_index(VarLabel::new(0)));
+            }
+            _ => {
+                let c = Cnf::new(&[vec![lit(0, true), lit(2, false)], vec![lit(1, true)]]);
+                let _ = (c.min_fill_order(), c.hasher().hash(&rsdd::repr::PartialModel::from_litvec(&[lit(1, true)], 3)), c.to_dimacs());
+                let mut w: rsdd::repr::WmcParams<rsdd::util::semirings::RealSemiring> = rsdd::repr::WmcParams::default();
+                w.set_weight(VarLabel::new(1), rsdd::util::semirings::RealSemiring(0.5), rsdd::util::semirings::RealSemiring(0.5));
+            }
+        }
+        rsdd::verif::set_table_capacity(0);
+    });
+    rsdd::verif::set_table_capacity(0);
+}
